@@ -29,9 +29,14 @@ WITNESSES = [
 ]
 
 
-def compile_witness(path, cfg, repo):
-    flags = extract.CONFIGS[cfg]
-    cmd = ['clang++', '-fsyntax-only', '-ferror-limit=0', '-Wno-everything'] + flags + ['-I' + os.path.join(repo, 'include'), path]
+def compile_witness(path, cfg, repo, compiler='clang++'):
+    flags = list(extract.CONFIGS[cfg])
+    if compiler == 'clang++':
+        cmd = ['clang++', '-fsyntax-only', '-ferror-limit=0', '-Wno-everything'] + flags + ['-I' + os.path.join(repo, 'include'), path]
+    else:
+        # the repository's own compiler (g++ 12): a second, independent front end (thorough tier)
+        if any('c++20' in f for f in flags): flags.append('-fcoroutines')
+        cmd = ['g++', '-fsyntax-only', '-fmax-errors=0', '-w'] + flags + ['-I' + os.path.join(repo, 'include'), path]
     p = subprocess.run(cmd, stdout=subprocess.PIPE, stderr=subprocess.STDOUT, text=True)
     return p.returncode, p.stdout
 
@@ -45,6 +50,9 @@ def _mk(rid, props, fname, cfgs, doc):
         n_asserts = len(re.findall(r'\bstatic_assert\s*\(', src)) + sum(len(re.findall(r'\b%s\s*\(' % m, src)) for m in ())
         repo = extract.REPO
         rc, out = compile_witness(path, F.config, repo)
+        if run.tier == 'thorough':
+            rc2, out2 = compile_witness(path, F.config, repo, compiler='g++')
+            out = out + '\n' + out2
         failed = []
         others = []
         lines = out.splitlines()
@@ -58,7 +66,7 @@ def _mk(rid, props, fname, cfgs, doc):
                 if ' error: ' in l2: break
                 w = re.search(r'vp::in_(\w+)', l2)
                 if w: where = w.group(1); break
-            sm = re.search(r"static(?:_assert| assertion) failed.*?[\"'](W-[^\"']*)", msg)
+            sm = re.search(r"static(?:_assert| assertion) failed.*?[\"']?(W-[^\"']*)", msg)
             if sm: failed.append((file, ln, sm.group(1) + ((' [child position: %s]' % where) if where else '')))
             else: others.append((file, ln, msg + ((' [child position: %s]' % where) if where else '')))
         # expanded macro CHECK(...) rows: count instantiations by counting W- messages present after preprocessing is
